@@ -165,6 +165,8 @@ def _gen_world(r):
     if r.random() < 0.25:      # length an exact number of window steps (+-1)
         k = r.randrange(0, 4)
         w["ns"] = max(1000, k * (w["nwindow"] - 576) + w["nwindow"] + r.choice([-1, 0, 0, 1]))
+    if r.random() < 0.15:      # length an exact number of verification blocks (the post-check reads blocks of nwindow samples without overlap) +-1
+        w["ns"] = max(1000, min(6001, r.randrange(1, 5) * w["nwindow"] + r.choice([-1, 0, 1, 1])))
     w["extra"] = r.choice(["", "", "_x"])        # suffix of the shank folder names (init_params(extra=...))
     w["orig_chunk"] = r.choice([0.02, 0.05, 1.0])
     # the original's metadata may disagree with the file (stale header of a crashed acquisition: fewer frames announced than
@@ -463,7 +465,8 @@ def _exec_step(W, st, model, log, stats, bump, seed):
         only = fault.get("only")
         elig = (lambda lab: label_class(lab) == only) if only else eligible
         nop = fault.get("no_persistent")
-        fault = session.place_fault(fr, dr["events"], elig, kinds=tuple(fault.get("kinds") or ("kill", "kill", "io_error", "torn", "corrupt", "interrupt", "short", "short")))
+        fault = session.place_fault(fr, dr["events"], elig, kinds=tuple(fault.get("kinds") or ("kill", "kill", "io_error", "torn", "corrupt", "interrupt", "short", "short")),
+                                    occ=fault.get("occ"), tear=fault.get("tear"))
         if fault and nop:
             fault.pop("persistent", None)
         st["fault"] = fault
@@ -665,7 +668,36 @@ def _check_outputs(W, st, sig0, ctx):
             raise Violation("C04.S4", f"{sig0}:np21-cbin", "NP2.1 original not compressed in place to a complete .cbin | " + ctx)
 
 
+def _verification_sweep(tier, verif_seed):
+    """Verification sweeps: for a seeded NP2.4 world, lengths of exactly m blocks of the post-check (+-1 sample) x one
+    silently corrupted byte at the very first / a middle / the very last position of the first and of the last AP window
+    write, with verify-then-delete asked for: a verification that skips a boundary block lets the original go."""
+    from sim.common import run_seed
+    nb = {"quick": 1, "thorough": 4}[tier]
+    for b in range(nb):
+        s = run_seed(verif_seed, PROP + "-verify", b)
+        r = rng_of(s)
+        w = _gen_world(r)
+        w.update({"kind": "NP24", "form": "bin", "nap": r.choice([4, 8]), "meta_claim": None, "extra": ""})
+        w["shank_of"] = world.gen_shank_of(r, w["nap"], 4)
+        w["nwindow"] = r.choice([1008, 1200, 1500])
+        m = r.choice([1, 2, 3])
+        for dn in (-1, 0, 1):
+            # the events of one window are the shanks' writes in shank order: -4 = the FIRST shank's write of the last window
+            # (its last column is the sync word, which the post-check does compare for the first shank)
+            for occ, tear in (("first", 0.0), (-4, 1.0), ("last", 0.5)):
+                ww = dict(w, ns=m * w["nwindow"] + dn)
+                st = {"op": "process", "overwrite": False, "post_check": True, "compress": False, "delete_original": True,
+                      "fault": {"auto": True, "rseed": s % 100000, "kinds": ["corrupt"], "only": "tofile:.imec0.ap.bin", "occ": occ, "tear": tear}}
+                yield {"property": PROP, "seed": s, "world": ww, "steps": [st], "closing": False, "sweep_of": 100 + b}
+
+
 def sweep_plans(tier, verif_seed):
+    yield from _verification_sweep(tier, verif_seed)
+    yield from _crash_sweep(tier, verif_seed)
+
+
+def _crash_sweep(tier, verif_seed):
     """Crash-point sweeps: for seeded base histories, EVERY event index of the last call is tried
     once with `kill` (enumeration of the fault axis inside seeded choice of everything else)."""
     from sim.common import run_seed
